@@ -318,7 +318,8 @@ def encode_chunked(rng, payload, max_line):
         for _ in range(20):
             h = ('%x' % k) if rng.random() < 0.5 else ('%X' % k)
             h = '0' * rng.choice([0, 0, 1, 2]) + h
-            ext = rng.choice(['', '', ';a', ';name=val', ';q="x y"'])
+            # chunk extensions: tokens and quoted strings, the latter with quoted pairs (an escaped quote, an escaped backslash)
+            ext = rng.choice(['', '', ';a', ';name=val', ';q="x y"', ';a="x\\"y"', ';a="x;y=z"', ';k="\\\\"', ';t="q\\"uo\\"te\\""', ';a=""', ';a="\\"";b=c'])
             line = (h + ext).encode() + b'\r\n'
             if len(line) <= max_line:
                 break
